@@ -59,14 +59,17 @@ theorem createUpdate_known_token (s : State) (b t nj ng usr : Nat) (u : Update) 
 
 /-! ## (3) job bunch -/
 
-/-- ER_DUP_ENTRY early return of `_create_jobs`: a bunch whose first job passes the `jobs_before_insert` trigger (group
-not cancelled) and whose first job id already exists is answered `ok` and changes nothing. -/
+/-- ER_DUP_ENTRY early return of `_create_jobs`: a bunch that passes the id checks (`specIdsOk`: they depend only on the
+specs and on `start_job_id` / `n_jobs` of the update row, so a bunch that passed them once passes them again), whose first job
+passes the `jobs_before_insert` trigger (group not cancelled) and whose first job id already exists is answered `ok` and
+changes nothing. -/
 theorem insertJobs_dup_noop (s : State) (b upd user : Nat) (first : JobSpec) (rest : List JobSpec) (u : Update) (bt : Batch)
     (hu : findUpdate s b upd = some u) (hbt : findBatch s b = some bt) (h1 : bt.user = user) (h2 : bt.deleted = false)
-    (h3 : u.committed = false) (hnc : groupCancelled s b (mkJob u b first).group = false)
+    (h3 : u.committed = false) (hids : ∀ sp ∈ first :: rest, specIdsOk u sp = true)
+    (hnc : groupCancelled s b (mkJob u b first).group = false)
     (hdup : (findJob s b (first.relId + u.startJob - 1)).isSome) :
     step s (.insertJobs b upd user (first :: rest)) = (s, .ok 0) :=
-  insertJobs_dup s b upd user first rest u bt hu hbt h1 h2 h3 hnc hdup
+  insertJobs_dup s b upd user first rest u bt hu hbt h1 h2 h3 hids hnc hdup
 
 /-- Re-sending a job bunch: the state after the second send is the state after the first, and the answer is the same
 (an accepted bunch is answered `ok 0` both times; a refused bunch is refused again). -/
@@ -75,23 +78,30 @@ theorem insertJobs_idem (s : State) (b upd user : Nat) (specs : List JobSpec) :
       ((step s (.insertJobs b upd user specs)).1, (step s (.insertJobs b upd user specs)).2) :=
   Submission.insertJobs_idem s b upd user specs
 
-/-- A job bunch retried after ANY interleaving of other requests (other clients' updates, driver activity, …): the first
-job row still exists and the update's `start_job_id` is unchanged, so — as long as the update is still uncommitted, the
+/-- A job bunch (that passed the id checks when it was first sent: `hids`) retried after ANY interleaving of other requests
+(other clients' updates, driver activity, …): the first job row still exists and the update's `start_job_id` / `n_jobs` are
+unchanged, so — as long as the update is still uncommitted, the
 batch not deleted and the first job's group not cancelled — the retry is answered `ok` and changes nothing. -/
 theorem insertJobs_retry_later (s : State) (ops : List Op) (b upd user : Nat) (first : JobSpec) (rest : List JobSpec)
-    (u : Update) (hu : findUpdate s b upd = some u) (hj : (findJob s b (first.relId + u.startJob - 1)).isSome) :
+    (u : Update) (hu : findUpdate s b upd = some u) (hj : (findJob s b (first.relId + u.startJob - 1)).isSome)
+    (hids : ∀ sp ∈ first :: rest, specIdsOk u sp = true) :
     ∃ u', findUpdate (after s ops) b upd = some u' ∧ u'.startJob = u.startJob ∧ u'.startGroup = u.startGroup ∧
       ∀ bt, findBatch (after s ops) b = some bt → bt.user = user → bt.deleted = false → u'.committed = false →
         groupCancelled (after s ops) b (mkJob u' b first).group = false →
         step (after s ops) (.insertJobs b upd user (first :: rest)) = (after s ops, .ok 0) := by
-  obtain ⟨u', h, -, -, -, a4, -, a6, -, -⟩ := findUpdate_run ops s hu
+  obtain ⟨u', h, -, -, -, a4, a5, a6, -, -⟩ := findUpdate_run ops s hu
   refine ⟨u', h, a4, a6, ?_⟩
   intro bt hbt h1 h2 h3 hnc
+  have hids' : ∀ sp ∈ first :: rest, specIdsOk u' sp = true := by
+    intro sp hsp
+    have := hids sp hsp
+    unfold specIdsOk at this ⊢
+    rw [a4, a5]; exact this
   have hj' : (findJob (after s ops) b (first.relId + u'.startJob - 1)).isSome := by
     rw [a4]
     exact foldl_inv (fun t => (findJob t b (first.relId + u.startJob - 1)).isSome)
       (fun t op ht => findJob_isSome_step t op ht) ops s hj
-  exact insertJobs_dup_noop _ b upd user first rest u' bt h hbt h1 h2 h3 hnc hj'
+  exact insertJobs_dup_noop _ b upd user first rest u' bt h hbt h1 h2 h3 hids' hnc hj'
 
 /-- no job row is duplicated: (batch_id, job_id) stays a key of `jobs` in every reachable state -/
 theorem jobs_never_duplicated {s : State} (h : Reachable s) : (s.jobs.map fun j => (j.batch, j.id)).Nodup :=
